@@ -210,6 +210,16 @@ def colon_contigs(g):
     return g
 
 
+def rename_ids(g, style):
+    """same graph with segment names that contain punctuation (GFA names are [!-)+-<>-~][!-~]*; assemblers write utig4-17, ptg000003l.2):
+    s12 -> utig4-12 | ptg012l.2 | n#12.  Attributes set on the segments (BO/NO) are kept."""
+    fn = {"dash": lambda i: "utig4-" + i[1:], "dot": lambda i: "ptg%03dl.2" % int(i[1:]), "hash": lambda i: "n#" + i[1:]}[style]
+    m = {s.id: (fn(s.id) if s.id[0] == "s" and s.id[1:].isdigit() else s.id) for s in g.segs}
+    for s in g.segs:
+        s.id = m[s.id]
+    return Graph(g.segs, [(m[a], oa, m[b], ob, ov, t) for a, oa, b, ob, ov, t in g.links], header=g.header)
+
+
 def gaf_record(g, walk, start, end, name="r", qlen=None, strand="+", mapq=60, cigar=None, tags=(),
                matches=None, block=None):
     """A GAF line (list of fields) for `walk` = [(id, '>'|'<')...] aligned on [start, end)."""
